@@ -1046,6 +1046,23 @@ func (x *Exec) evalSpecCall2(sc *specCtx, e *ast.CallExpr) Value {
 		}
 		x.sym.declareFun("bytes2str", []Sort{SInt, SInt, SInt}, SStr)
 		return Scalar{mk(SStr, "bytes2str", sv.Arr, sv.Off, sv.Len), types.Typ[types.String]}
+	case "loopreached":
+		// loopreached(N): the head of loop N of the function under verification was reached (in the scope of the
+		// clause: since the enclosing loop's head for an iteration clause) - "this loop was not skipped"
+		if len(e.Args) != 1 {
+			panic(engineErr("loopreached(N) expected"))
+		}
+		lit, ok := e.Args[0].(*ast.BasicLit)
+		if !ok {
+			panic(engineErr("loopreached: N must be a literal"))
+		}
+		n, _ := strconv.Atoi(lit.Value)
+		for _, ev := range sc.st.events[sc.evFrom:] {
+			if ev.Kind == "loop-summary" && ev.Root && ev.LoopOrd == n {
+				return Scalar{tTrue, boolT}
+			}
+		}
+		return Scalar{tFalse, boolT}
 	case "received":
 		// received(v): v is, unchanged, a result of one of the calls made so far - other than the constructors of
 		// new errors in fmt and errors (a wrapped or re-made error is not the error that was received). Calls made
